@@ -213,18 +213,17 @@ func (c *Client) RespondEncryptionWithKey(pub *rsa.PublicKey, secret, token []by
 	if err != nil {
 		return err
 	}
-	if err = c.Send(&packet.EncryptionResponse{SharedSecret: es, VerifyToken: et}); err != nil {
-		return err
-	}
+	resp := &packet.EncryptionResponse{SharedSecret: es, VerifyToken: et}
 	if enable && len(secret) == 16 {
-		if err = c.EnableEncryption(secret); err != nil {
+		if err = c.SendThenEncrypt(resp, secret); err != nil {
 			return err
 		}
 		c.mu.Lock()
 		c.Encrypted = true
 		c.mu.Unlock()
+		return nil
 	}
-	return nil
+	return c.Send(resp)
 }
 
 // LoginResult is what a login attempt ended with.
